@@ -20,6 +20,8 @@ struct Case {
     rules: Vec<RuleAst>,
     store: Store,
     max_cycles: usize,
+    /// which copy of the engine's loop is driven
+    entry: Entry,
 }
 
 impl Case {
@@ -28,6 +30,7 @@ impl Case {
             "rules": self.rules.iter().map(rule_json).collect::<Vec<_>>(),
             "store": self.store.to_json(),
             "max_cycles": self.max_cycles,
+            "entry": self.entry.name(),
             "grl": fmt_rules(&self.rules),
         })
     }
@@ -36,6 +39,7 @@ impl Case {
             rules: j.get("rules")?.as_array()?.iter().map(rule_from).collect::<Option<Vec<_>>>()?,
             store: Store::from_json(j.get("store")?)?,
             max_cycles: j.get("max_cycles")?.as_u64()? as usize,
+            entry: Entry::from_name(j.get("entry").and_then(|v| v.as_str()).unwrap_or("execute_with_callback")),
         })
     }
 }
@@ -107,8 +111,7 @@ fn assignment_hint(expected: &Store, observed: &Store, rule: &RuleAst) -> String
 /// Judge one case. Returns the first disagreement (if any) and what was observed.
 fn judge(case: &Case) -> (Option<Viol>, Obs) {
     let mut obs = Obs::default();
-    let text = fmt_rules(&case.rules);
-    let run = run_forward(&text, case.rules.len(), &case.store, case.max_cycles);
+    let run = run_forward_rules(&case.rules, &case.store, case.max_cycles, &[], case.entry);
     if run.parse_error.is_some() {
         obs.parse_failed = true;
         return (None, obs);
@@ -467,7 +470,7 @@ fn shrink_and_sign(case: &Case, v: &Viol) -> Violation {
         for ri in tryorder {
             let mut r = case.rules[ri].clone();
             r.attrs.salience = None;
-            let cand = Case { rules: vec![r], store: v.state.clone(), max_cycles: 1 };
+            let cand = Case { rules: vec![r], store: v.state.clone(), max_cycles: 1, entry: case.entry };
             // with a single rule the attribution is exact, so any disagreement found there is
             // the one to report (the multi-rule attribution after an aborted run is a guess)
             if let Ok((Some(nv), _)) = pan::catch(|| judge(&cand)) {
@@ -605,6 +608,7 @@ fn run_and_record(case: &Case, st: &mut Stats) {
         st.count("skipped_consideration_order_not_as_assumed_(C02_C03_own_it)");
         st.inconclusive("firing order / pass structure was not the one C01's attribution assumes (see C02/C03)");
     }
+    st.count(&format!("runs_via::{}", case.entry.name()));
     st.add("firings_judged_true", obs.firings_judged);
     st.add("nonfirings_judged_false", obs.nonfirings_judged);
     st.add("assignments_judged", obs.assignments_judged);
@@ -633,6 +637,7 @@ fn gen_case(rng: &mut Rng) -> Case {
         rules: (0..n).map(|i| gen::gen_rule(rng, i, max_depth, &h)).collect(),
         store: gen::gen_store(rng),
         max_cycles: *rng.pick(&[1usize, 3]),
+        entry: if rng.bool() { Entry::WithCallback } else { Entry::Execute },
     }
 }
 
@@ -704,6 +709,7 @@ fn leaf_matrix() -> Vec<Case> {
                         }],
                         store: base.clone(),
                         max_cycles: 1,
+                        entry: if neg { Entry::Execute } else { Entry::WithCallback },
                     });
                 }
             }
